@@ -150,6 +150,37 @@ for _v in ("class", "table"):
                "%s%s %r" % (t, "" if d is E else "=%r" % (d,), doc) for t, doc, d in COLUMN_CASES[_lo:_hi + 1]))(_columns(_v, _lo, _hi))
 
 
+# P1.names: column NAMES that look special (leading underscores, SQLAlchemy / Python attribute names, suffixes the PK inference looks at) -----------------------------
+COLNAMES = ("_id", "_rev", "__x", "id_", "type", "metadata", "Column", "name", "kwargs", "loader_kwargs", "return_type", "self", "query", "registry", "x1", "Id", "ID",
+            "user_id", "dataset_name", "created_at", "_", "Base")
+
+
+def col_names(variant, n, pk, dflt):
+    nm = COLNAMES[0]
+    for k in range(1, len(COLNAMES)):
+        if n == k:
+            nm = COLNAMES[k]
+    v = "class" if variant == 0 else "table"
+    cols = [] if pk else [("id", {"typ": "int", "doc": "[PK] the id"})]
+    c = {"typ": "str", "doc": ("[PK] " if pk else "") + "the col"}
+    if dflt and not pk:
+        c["default"] = "d"
+    cols += [(nm, c), ("last", {"typ": "int", "doc": "the last", "default": 3})]
+    ir = {"name": "Config", "doc": "Header line.", "type": "static", "params": OrderedDict(cols), "returns": None}
+    try:
+        node, back = emit_parse(v, ir)
+    except Exception as e:
+        return "%s emit->parse raised %s: %s" % (v, type(e).__name__, e)
+    if count_pk(node) != 1:
+        return "emission has %d primary keys" % count_pk(node)
+    return cols_equiv(ir["params"], back["params"])
+
+
+ob("C05", "P1.names", {"variant": R(0, 1), "n": R(0, len(COLNAMES) - 1), "pk": BOOL, "dflt": BOOL}, enum=True, T=600, tpath=60, funcs=FUNCS,
+   bound="a str column named ANY of %r (the primary key itself or next to an explicit one, with/without default) followed by an int column, class and Table variants "
+         "(solver-enumerated): every column comes back, in order, exactly one primary key" % (COLNAMES,))(col_names)
+
+
 def agree(c0, c1, bdef, kind):
     ir = mk(c0, c1, 120, bdef, kind)
     try:
